@@ -23,6 +23,7 @@ RULE = (
     "stopping criterion. distinct = (solver, knob signature, joint-type multiset, has loop, has moving frame); "
     "non-trivial = at least one bilateral constraint and >= 10 stored steps"
 )
+RULE += " Joint parents may be the second partner; drives may start from rest; a fifth of the sessions use very fine steps (1e-5..3e-4); Cosserat-rod sessions (all formulations, clamped / hinged to origin / moving frame / carrying a body) monitor the rod's internal constraints and nodal quaternions; sessions may carry a user-defined nonholonomic constraint (gamma rows of all solvers); sessions with forced fixed-point / Newton failures and continue_with_unconverged check the quaternion clause on the steps stored after a failure (sphere-plane and sphere-sphere contacts)."
 COMPONENTS = {
     "real": ["all six dynamic solvers", "System", "all joints / force elements", "fsolve", "scipy / scipy_dae back ends"],
     "stub": ["tqdm -> SimProgress (step seam)", "stdout/warnings captured"],
@@ -85,6 +86,9 @@ def gen(rng, tier, index):
     steps = int(rng.integers(10, 120 if tier == "thorough" else 60))
     if name in ("ScipyIVP", "ScipyDAE"):
         dt = float(10 ** rng.uniform(-2.5, -1.5))
+        steps = int(rng.integers(10, 40))
+    elif rng.random() < 0.2:
+        dt = float(10 ** rng.uniform(-5.0, -3.5))  # very fine steps: almost nothing changes from one step to the next
         steps = int(rng.integers(10, 40))
     solver = gen_solver(rng, name, steps, dt, contacts=False)
     if name in ("Rattle", "BackwardEuler") and rng.random() < 0.2:
